@@ -26,7 +26,7 @@ from ..recipes import ref as R
 
 LEVEL = "exploration"
 BUDGET_S = {"quick": 420, "thorough": 2400}
-MAXLEN = {"quick": 2, "thorough": 3}  # 26 operations: 26^3 sequences x 4 base models is what fits the thorough budget
+MAXLEN = {"quick": 2, "thorough": 3}  # 27 operations: 27^3 sequences x 4 base models is what fits the thorough budget
 N_RANDOM = {"quick": 6, "thorough": 200}
 
 a_, b_, c_ = ["var", "a"], ["var", "b"], ["var", "c"]
@@ -59,6 +59,7 @@ BASES = {
         "c_list": [["rel", "<=", add(a_, c_), ["raw", 3.0, "float"], "direct"], ["rel", ">=", add(b_, mul(-1.0, c_)), ["raw", -1.0, "float"], "direct"]],
         "c_nl": ["rel", "<=", add(sq(a_), sq(b_)), ["raw", 4.0, "float"], "direct"],
         "bvar": "a",
+        "view": add(a_, mul(3.0, c_)),
     },
     "single-vector": {
         "decls": [{"k": "vec", "name": "x", "n": 3, "lb": 0.0, "ub": 3.0}, {"k": "var", "name": "c", "lb": 0.0, "ub": 2.0}],
@@ -69,6 +70,8 @@ BASES = {
         "c_list": [["rel", "<=", add(["el", _x, 0], c_), ["raw", 3.0, "float"], "direct"], ["rel", ">=", ["el", _x, 1], c_, "direct"]],
         "c_nl": ["rel", "<=", ["dot", _x, _x], ["raw", 4.0, "float"], "direct"],
         "bvar": "x[1]",
+        # an objective over ANOTHER vector object (a slice view of x) while the constraints stay on x itself
+        "view": ["sum", ["slice", _x, 0, 2, None]],
     },
     "reversed-view": {
         "decls": [{"k": "vec", "name": "x", "n": 3, "lb": -1.0, "ub": 3.0}, {"k": "var", "name": "c", "lb": 0.0, "ub": 2.0}],
@@ -79,6 +82,7 @@ BASES = {
         "c_list": [["rel", "<=", ["slice", _x, 1, 3, None], ["raw", 2.5, "float"], "direct"], ["rel", ">=", add(["el", _x, 0], c_), ["raw", 0.5, "float"], "direct"]],
         "c_nl": ["rel", ">=", ["fn", "exp", ["el", _x, 0]], ["raw", 1.0, "float"], "direct"],
         "bvar": "x[0]",
+        "view": ["matmul", ["arr", [1.0, 2.0]], ["slice", _x, 1, 3, None]],
     },
 }
 BASES["degenerate-lp"] = {
@@ -92,8 +96,9 @@ BASES["degenerate-lp"] = {
     "c_list": [["rel", "<=", add(a_, c_), ["raw", 7.0, "float"], "direct"], ["rel", ">=", add(b_, c_), ["raw", 0.5, "float"], "direct"]],
     "c_nl": ["rel", "<=", add(sq(a_), sq(b_)), ["raw", 40.0, "float"], "direct"],
     "bvar": "a",
+    "view": add(b_, c_),
 }
-OPS = ["min-lin", "min-quad", "min-small", "max", "max-lin", "flip-same-object", "add-lin", "add-list", "add-nl", "add-mixed-list", "add-list-with-invalid-entry", "tighten", "rebound", "solve-auto", "solve-SLSQP",
+OPS = ["min-lin", "min-quad", "min-small", "min-view", "max", "max-lin", "flip-same-object", "add-lin", "add-list", "add-nl", "add-mixed-list", "add-list-with-invalid-entry", "tighten", "rebound", "solve-auto", "solve-SLSQP",
        "solve-trust-constr", "solve-linprog", "solve-BFGS", "solve-Nelder-Mead", "solve-COBYLA", "solve-SLSQP-maxiter2", "noop", "reject-maximize", "reject-minimize",
        "reject-subject_to", "read"]
 OBS = {"solve-auto", "solve-SLSQP", "solve-trust-constr", "solve-linprog", "solve-BFGS", "solve-Nelder-Mead", "solve-COBYLA", "solve-SLSQP-maxiter2", "read"}
@@ -104,10 +109,10 @@ def info(tier):
     return {
         "level": LEVEL,
         "exhaustive": True,
-        "rule": "all %d operation sequences of length <= %d over %d operations x 3 base models (the last operation of each sequence "
+        "rule": "all %d operation sequences of length <= %d over %d operations x 4 base models (the last operation of each sequence "
         "ending in an observation is compared with the twin; prefixes are covered by the shorter sequences); the complete "
-        "family 'objective ; [constraint] ; solve m1 ; edit ; observe' (4x3x5x10x6 per base model; quick runs one sixteenth of it per seed, plus the directed two-solve crossings below in full "
-        "per seed); random histories of length <= 40 with every observation compared; distinct = distinct (base, sequence) pairs"
+        "family 'objective ; [constraint] ; solve m1 ; edit ; observe' (5 objectives x 3 x every solve x every edit x every observation per base model; quick runs one sixteenth of it per seed, plus the "
+        "directed two-solve crossings and the 'objective moved to a view of the vector' histories in full per seed); random histories of length <= 40 with every observation compared; distinct = distinct (base, sequence) pairs"
         % (n, MAXLEN[tier], len(OPS)),
         "required_cells": [f"base:{b}" for b in BASES] + [f"last:{o}" for o in OPS if o in OBS] + [f"op:{o}" for o in OPS],
         "assumptions": ["twin process gives the fresh-model result; deterministic solvers => tight comparison (1e-7 objective, 1e-5 values)",
@@ -132,14 +137,14 @@ class Model:
 def apply(op, M, P, b):
     """Apply op to both the reference model M and the real problem P."""
     base = M.base
-    if op in ("min-lin", "min-quad", "max", "max-lin", "min-small"):
+    if op in ("min-lin", "min-quad", "max", "max-lin", "min-small", "min-view"):
         if op == "min-small":
             # an objective over a strict subset of the variables the earlier objectives used (the others are no longer mentioned
             # unless a constraint still does)
             first = base["decls"][0]
             v0 = ["var", first["name"]] if first["k"] == "var" else ["el", ["vec", first["name"]], 0]
             base = dict(base, small=add(sq(["bin", "-", v0, ["raw", 0.75, "float"]]), ["raw", 0.5, "float"]))
-        node = base[{"min-lin": "lin", "min-quad": "quad", "max": "max", "max-lin": "lin", "min-small": "small"}[op]]
+        node = base[{"min-lin": "lin", "min-quad": "quad", "max": "max", "max-lin": "lin", "min-small": "small", "min-view": "view"}[op]]
         M.objective, M.sense = node, ("max" if op.startswith("max") else "min")
         e = b.S(node)
         (P.maximize if op.startswith("max") else P.minimize)(e)
@@ -369,6 +374,16 @@ def run(ctx, rec):
                                 return
                             run_sequence(rec, base, [obj, "add-lin", m1, mid, last], twin)
                             rec.cmp(1, "history:two-solves-without-an-edit")
+        # directed: after an observation the objective moves to ANOTHER vector object (a view) while the constraints stay on the old one
+        for base in BASES:
+            for obj in ("min-lin", "max-lin", "min-quad"):
+                for m1 in ("solve-auto", "read", "solve-SLSQP"):
+                    for last in ("solve-auto", "solve-SLSQP", "read"):
+                        i += 1
+                        if not ctx.mine(i):
+                            continue
+                        run_sequence(rec, base, [obj, "add-lin", m1, "min-view", last], twin)
+                        rec.cmp(1, "history:objective-moved-to-a-view")
         # cache-boundary crossings (length 4-5): objective ; [constraint] ; solve m1 ; edit ; observe
         edits = [o for o in OPS if o not in OBS]
         solves = [o for o in OPS if o.startswith("solve")]
